@@ -385,7 +385,13 @@ def observe_run(C, reads1, reads2, workdir):
     files_written = {1: 0, 2: 0}
     files_bp = {1: 0, 2: 0}
     for fname, (role, side, n1, n2) in sorted(roles.items()):
-        fmt, recs = parse_records(res.files[fname] or b"")
+        try:
+            fmt, recs = parse_records(res.files[fname] or b"")
+        except ValueError as ex:
+            # an output file that is not a sequence of complete records is an observation, not a harness problem
+            ev["failed"] = dict(exit=-3, errors=[f"output file {fname} is not well-formed: {ex}"], exc="garbled output",
+                                head=(res.files[fname] or b"")[:300].decode("latin-1"))
+            return ev, sampler, res
         if side == 0:
             # interleaved file: records alternate R1, R2; position = index of the pair
             if len(recs) % 2:
